@@ -3,15 +3,15 @@ import json, os, subprocess
 V = os.path.dirname(os.path.dirname(os.path.abspath(__file__)))
 ids = [json.loads(l)["id"] for l in open(os.path.join(V, "properties.jsonl"))]
 
-TLA = "explicit TLA+ spec (spec/Wallet.tla): TLC model-checks the bounded model, TLC-generated behaviours are replayed on the real code, TLC validates the recorded trace (Layer-P monitors + Layer-M refinement)"
-WALLET_NOTE = ("Trusted: LMDB commit atomicity, file system, secp256k1/bulletproofs/ed25519; the projection alpha in harness/src/world.rs; "
-               "values are whole units of 1e6 nanogrin in protocol traces. The verdict comes only from Layer-P monitors evaluated by TLC on states observed from the real code.")
-
-CLAIMED = {
- "C03": dict(cat="model_checking", ref="DESIGN.md 4 C03",
-   text="TLC exhaustively explores all interleavings of init/lock/receive/finalize/cancel/post/mine/refresh over 2 slates (duplicated and re-ordered deliveries included) and checks ExclusiveReservation and ReplayNoEffect on the model; a pair-feature-covering sample of the generated behaviours (every transition of the model prints its history) is executed on real wallets over a real chain and every observed state is judged by the same TLA+ predicates; refinement (Layer M) must hold on the unchanged tree so that the exhaustive result carries over to the code.",
-   technique="TLC model checking + TLC-generated behaviours replayed on real code + TLC trace validation"),
-}
+import sys, glob, importlib
+sys.path.insert(0, os.path.join(V, "lib"))
+DEFAULT_NOTE = "see DESIGN.md"
+CLAIMED = {}
+for f in sorted(glob.glob(os.path.join(V, "lib", "prop_C*.py"))):
+    pid = os.path.basename(f)[5:-3]
+    mod = importlib.import_module("prop_" + pid)
+    if getattr(mod, "MANIFEST_ENTRY", None):
+        CLAIMED[pid] = mod.MANIFEST_ENTRY
 
 def main():
     m = json.load(open(os.path.join(V, "MANIFEST.json")))
@@ -28,15 +28,19 @@ def main():
             "replay_cmd_template": "./check %s --replay {path}" % pid,
             "engine": c.get("engine", "wallet-tla"),
             "level_claimed": {"category": c["cat"], "text": c["text"], "design_ref": c["ref"]},
-            "level_note": c.get("note", WALLET_NOTE),
-            "technique": c.get("technique", TLA),
+            "level_note": c.get("note", DEFAULT_NOTE),
+            "technique": c.get("technique", "explicit TLA+ specification checked with TLC and bound to the code by replay / trace validation"),
         })
     m["checks"] = checks
     old_na = {x["property_id"]: x["reason"] for x in m.get("not_applicable", [])}
     NA = json.load(open(os.path.join(V, "lib", "not_applicable.json")))
     m["not_applicable"] = [{"property_id": i, "reason": NA.get(i, old_na.get(i, "check not built yet (work in progress; see DESIGN.md)"))}
                            for i in ids if i not in CLAIMED]
-    m["engines"] = [
+    engines = {}
+    for p in ids:
+        if p in CLAIMED:
+            engines.setdefault(CLAIMED[p].get("engine", "wallet-tla"), []).append(p)
+    m["engines"] = [{"name": k, "serves_properties": v, "path": "spec/, harness/, lib/", "kind_free_text": "TLA+ spec + TLC + Rust replay harness"} for k, v in engines.items() if k != "wallet-tla"] + [
         {"name": "wallet-tla", "path": "spec/Wallet.tla, spec/WalletProps.tla, spec/MCWallet.tla, spec/TraceWallet.tla, harness/", 
          "serves_properties": [p for p in ids if p in CLAIMED and CLAIMED[p].get("engine", "wallet-tla") == "wallet-tla"],
          "kind_free_text": "TLA+ state machine of the wallet (step operators), TLC model checking, behaviour generation, Rust replay harness on real wallets/chain, TLC trace validation"},
